@@ -319,19 +319,85 @@ theorem stepRegister_inv {sp sp' : Spec} {id : Id} {out : Out} {L : List LogE} (
       · cases h
 
 
-theorem stepDeliver_inv {sp sp' : Spec} {r : Reg} {id : Id} {h : HRes} {out : Out} {L : List LogE}
-    (hst : sp.stepDeliver r id h out = some sp') (hr : r ∈ sp.liveRegs)
+/-- the log grows by invocations of live registrations -/
+theorem LInv.callList {sp sp' : Spec} {L : List LogE} (hl : LInv sp L) (hs : SInv sp) (calls : List LogE)
+    (hc : ∀ e, e ∈ calls → ∃ r id, e = .call r id ∧ r ∈ sp.liveRegs)
+    (hlive : sp'.liveRegs = sp.liveRegs) (hregd : sp'.regd = sp.regd) : LInv sp' (L ++ calls) := by
+  induction calls generalizing L with
+  | nil => rw [List.append_nil]; exact LInv.same hl hlive hregd
+  | cons c rest ih =>
+    obtain ⟨r, id, rfl, hr⟩ := hc c (by simp)
+    have h1 : LInv sp (L ++ [.call r id]) := LInv.call hl hs hr rfl rfl
+    have := ih h1 (fun e he => hc e (by simp [he]))
+    simpa [List.append_assoc] using this
+
+theorem lookup_live' {sp : Spec} (hs : SInv sp) {id : Id} {r : Reg} (h : sp.lookup id = some r) : r ∈ sp.liveRegs := by
+  rw [Spec.lookup_eq_some hs.keys] at h
+  exact Spec.mem_liveRegs.mpr (Or.inl ⟨id, h⟩)
+
+/-- what a nested hash dispatch may log: nothing, or one invocation of a live registration -/
+theorem hashOutcomes_calls {sp : Spec} (hs : SInv sp) {msg : Option (List Byte)} {h : HRes} {o : List LogE × Int × Id}
+    (ho : o ∈ sp.hashOutcomes msg h) : ∀ e, e ∈ o.1 → ∃ r id, e = .call r id ∧ r ∈ sp.liveRegs := by
+  unfold Spec.hashOutcomes at ho
+  cases msg with
+  | none => simp at ho; subst ho; intro e he; cases he
+  | some m =>
+    simp only [List.mem_flatMap] at ho
+    obtain ⟨cid, _, hin⟩ := ho
+    cases cid with
+    | none => simp at hin; subst hin; intro e he; cases he
+    | some id2 =>
+      simp only at hin
+      cases hlk : sp.lookup id2 with
+      | some r2 =>
+        simp only [hlk] at hin
+        have hr2 := lookup_live' hs hlk
+        split at hin <;> (simp only [List.mem_singleton] at hin; subst hin; intro e he; simp at he; exact ⟨r2, id2, he, hr2⟩)
+      | none =>
+        simp only [hlk] at hin
+        cases hfb : sp.fb with
+        | some r2 =>
+          simp only [hfb, List.mem_singleton] at hin; subst hin
+          intro e he; simp at he
+          exact ⟨r2, id2, he, Spec.mem_liveRegs.mpr (Or.inr hfb)⟩
+        | none =>
+          simp only [hfb] at hin
+          split at hin <;> (simp only [List.mem_singleton] at hin; subst hin; intro e he; cases he)
+
+theorem stepDeliver_inv {sp sp' : Spec} {r : Reg} {id : Id} {msg : Option (List Byte)} {nest : Bool} {h : HRes} {out : Out}
+    {L : List LogE}
+    (hst : sp.stepDeliver r id msg nest h out = some sp') (hr : r ∈ sp.liveRegs)
     (hs : SInv sp) (hl : LInv sp L) : SInv sp' ∧ LInv sp' (L ++ out.log) := by
   unfold Spec.stepDeliver at hst
-  dsimp only at hst
-  split at hst
-  · rename_i hc
-    simp only [Bool.and_eq_true, beq_iff_eq, decide_eq_true_eq] at hc
-    cases hst
-    refine ⟨⟨hs.keys, hs.regs, hs.live_regd, hs.regd_lt⟩, ?_⟩
-    rw [hc.2]
-    exact LInv.call hl hs hr rfl rfl
-  · cases hst
+  cases nest with
+  | true =>
+    simp only [if_true] at hst
+    rw [List.findSome?_eq_some_iff] at hst
+    obtain ⟨_, o, _, hmem, hst, _⟩ := hst
+    have ho : o ∈ sp.hashOutcomes msg h := by rw [hmem]; simp
+    split at hst
+    · rename_i hc
+      simp only [Bool.and_eq_true, beq_iff_eq, decide_eq_true_eq] at hc
+      cases hst
+      refine ⟨⟨hs.keys, hs.regs, hs.live_regd, hs.regd_lt⟩, ?_⟩
+      rw [hc.2]
+      apply LInv.callList (sp' := { sp with dflt := (book sp.dflt o.2.2 ⟨o.2.1, false⟩).2 }) hl hs _ _ rfl rfl
+      intro e he
+      rw [List.mem_cons] at he
+      rcases he with rfl | he
+      · exact ⟨r, id, rfl, hr⟩
+      · exact hashOutcomes_calls hs ho e he
+    · cases hst
+  | false =>
+    simp only [Bool.false_eq_true, if_false] at hst
+    split at hst
+    · rename_i hc
+      simp only [Bool.and_eq_true, beq_iff_eq, decide_eq_true_eq] at hc
+      cases hst
+      refine ⟨⟨hs.keys, hs.regs, hs.live_regd, hs.regd_lt⟩, ?_⟩
+      rw [hc.2]
+      exact LInv.call hl hs hr rfl rfl
+    · cases hst
 
 theorem target_live {sp : Spec} (hs : SInv sp) {id : Id} {r : Reg} (h : sp.target id = some r) : r ∈ sp.liveRegs := by
   unfold Spec.target at h
@@ -368,8 +434,8 @@ theorem stepUnhandled_inv {sp sp' : Spec} {id : Id} {msg : Option (List Byte)} {
       exact ⟨hs, hl⟩
     · cases hst
 
-theorem stepEmit_inv {sp sp' : Spec} {id : Id} {msg : Option (List Byte)} {h : HRes} {out : Out} {L : List LogE}
-    (hst : sp.stepEmit id msg h out = some sp')
+theorem stepEmit_inv {sp sp' : Spec} {id : Id} {msg : Option (List Byte)} {nest : Bool} {h : HRes} {out : Out} {L : List LogE}
+    (hst : sp.stepEmit id msg nest h out = some sp')
     (hs : SInv sp) (hl : LInv sp L) : SInv sp' ∧ LInv sp' (L ++ out.log) := by
   unfold Spec.stepEmit at hst
   split at hst
@@ -479,6 +545,23 @@ theorem step_inv {sp sp' : Spec} {op : Op} {out : Out} {L : List LogE} (hst : sp
         exact ⟨hs, hl⟩
       · cases hst
     · exact stepEmit_inv hst hs hl
+  | emitCmd msg h =>
+    simp only [Spec.step] at hst
+    split at hst
+    · split at hst
+      · rename_i hc
+        simp only [Bool.and_eq_true, beq_iff_eq] at hc
+        cases hst
+        rw [hc.2, List.append_nil]
+        exact ⟨hs, hl⟩
+      · cases hst
+    · exact stepEmit_inv hst hs hl
+  | hashFrag frags h =>
+    simp only [Spec.step] at hst
+    rw [List.findSome?_eq_some_iff] at hst
+    obtain ⟨_, cid, _, _, hcid, _⟩ := hst
+    obtain ⟨rfl, hl'⟩ := stepHashId_inv hcid hs hl
+    exact ⟨hs, hl'⟩
   | emitNone h =>
     simp only [Spec.step] at hst
     split at hst
@@ -651,13 +734,13 @@ theorem run_inv {tr : List (Op × Out)} {sp sp' : Spec} {L : List LogE} (hrun : 
 
 /-- what the monitor demands of an emit outcome, read off its definition -/
 theorem stepEmit_log {sp sp' : Spec} {id : Id} {msg : Option (List Byte)} {h : HRes} {out : Out}
-    (hst : sp.stepEmit id msg h out = some sp') :
+    (hst : sp.stepEmit id msg false h out = some sp') :
     out.log = (match sp.target id with | some r => [.call r id] | none => []) := by
   unfold Spec.stepEmit at hst
   split at hst
   · rename_i r ht
     unfold Spec.stepDeliver at hst
-    dsimp only at hst
+    simp only [Bool.false_eq_true, if_false] at hst
     split at hst
     · rename_i hc
       simp only [Bool.and_eq_true, beq_iff_eq] at hc
